@@ -122,3 +122,30 @@ Check reset_is_fresh_after_any_history :
               (world_init (w_story (run_story_ops I sw_now ops (world_init st seed0 fuel0))) seed
                           (w_fuel (run_story_ops I sw_now ops (world_init st seed0 fuel0))))).
 Print Assumptions reset_is_fresh_after_any_history.
+
+(* ---------------- "Jumping to a path with a call-stack reset keeps variables ... but abandons all tunnels,
+   threads and functions" ----------------
+   choose_path_string leaves the VariablesState exactly as it was, however it ends; with reset_callstack = true,
+   when it returns Ok the call stack is ONE thread holding ONE element. *)
+From Ink.Shell Require Import VarsKept FramesKept PathJump.
+Theorem path_jump_keeps_variables :
+  forall (I : iface) (sw : switches) (p : text) (reset_cs : bool) (args : list value) (w : world),
+    ss_vars (w_state (snd (choose_path_string I sw p reset_cs args w))) = ss_vars (w_state w).
+Proof. exact PathJump.path_jump_keeps_variables. Qed.
+Check path_jump_keeps_variables :
+  forall (I : iface) (sw : switches) (p : text) (reset_cs : bool) (args : list value) (w : world),
+    ss_vars (w_state (snd (choose_path_string I sw p reset_cs args w))) = ss_vars (w_state w).
+Print Assumptions path_jump_keeps_variables.
+
+Theorem path_jump_with_reset_abandons_all_frames :
+  forall (I : iface) (sw : switches) (p : text) (args : list value) (w w' : world),
+    choose_path_string I sw p true args w = (OOk tt, w') ->
+    (exists t e, cs_threads (ss_cs (w_state w')) = [t] /\ th_cs t = [e])
+    /\ ss_vars (w_state w') = ss_vars (w_state w).
+Proof. exact PathJump.path_jump_reset_statement. Qed.
+Check path_jump_with_reset_abandons_all_frames :
+  forall (I : iface) (sw : switches) (p : text) (args : list value) (w w' : world),
+    choose_path_string I sw p true args w = (OOk tt, w') ->
+    (exists t e, cs_threads (ss_cs (w_state w')) = [t] /\ th_cs t = [e])
+    /\ ss_vars (w_state w') = ss_vars (w_state w).
+Print Assumptions path_jump_with_reset_abandons_all_frames.
